@@ -516,8 +516,14 @@ where
             CacheError::SendError(format!("fail to send clear signal to working thread {}", e))
         })?;
 
+        #[cfg(transparencies_stretto_verif)]
+        crate::verif::sched::point("clear:after_signal");
         self.policy.clear();
+        #[cfg(transparencies_stretto_verif)]
+        crate::verif::sched::point("clear:after_policy_clear");
         self.store.clear();
+        #[cfg(transparencies_stretto_verif)]
+        crate::verif::sched::point("clear:after_store_clear");
         self.metrics.clear();
 
         Ok(())
@@ -587,6 +593,8 @@ where
             return Ok(());
         }
 
+        #[cfg(transparencies_stretto_verif)]
+        crate::verif::sched::point("wait:before_send");
         let wg = WaitGroup::new();
         let wait_item = Item::Wait(wg.add(1));
         match self.insert_buf_tx.try_send(wait_item) {
@@ -616,6 +624,8 @@ where
         // delete immediately
         let prev = self.store.try_remove(&index, conflict)?;
 
+        #[cfg(transparencies_stretto_verif)]
+        crate::verif::sched::point("remove:after_store_remove");
         if let Some(prev) = prev {
             self.callback.on_exit(Some(prev.value.into_inner()));
         }
@@ -636,10 +646,14 @@ where
         }
 
         self.clear().await?;
+        #[cfg(transparencies_stretto_verif)]
+        crate::verif::sched::point("close:after_clear");
         // Block until processItems thread is returned
         self.stop_tx.send(()).await.map_err(|e| {
             CacheError::SendError(format!("fail to send stop signal to working thread, {}", e))
         })?;
+        #[cfg(transparencies_stretto_verif)]
+        crate::verif::sched::point("close:after_stop");
         self.policy.close().await?;
         self.is_closed.store(true, Ordering::SeqCst);
         Ok(())
@@ -660,6 +674,8 @@ where
 
         if let Some((index, item)) = self.try_update(key, val, cost, ttl, only_update)? {
             let is_update = item.is_update();
+            #[cfg(transparencies_stretto_verif)]
+            crate::verif::sched::point("insert:before_send");
             select! {
                 res = self.insert_buf_tx.send(item).fuse() => res.map_or_else(|_| {
                    if is_update {
@@ -740,6 +756,8 @@ where
             loop {
                 select! {
                     item = self.insert_buf_rx.recv().fuse() => {
+                        #[cfg(transparencies_stretto_verif)]
+                        crate::verif::sched::point("proc:insert_arm");
                         if let Err(e) = self.handle_insert_event(item) {
                             tracing::error!("fail to handle insert event, error: {}", e);
                             #[cfg(transparencies_stretto_verif)]
@@ -749,6 +767,8 @@ where
                         crate::verif::counters::inc(&crate::verif::counters::ITEMS_HANDLED);
                     }
                     _ = cleanup_timer.next().fuse() => {
+                        #[cfg(transparencies_stretto_verif)]
+                        crate::verif::sched::point("proc:tick_arm");
                         #[cfg(transparencies_stretto_verif)]
                         crate::verif::counters::inc(&crate::verif::counters::TICKS_STARTED);
                         if let Err(e) = self.handle_cleanup_event() {
@@ -760,6 +780,8 @@ where
                         crate::verif::counters::inc(&crate::verif::counters::TICKS_DONE);
                     },
                     _ = self.clear_rx.recv().fuse() => {
+                        #[cfg(transparencies_stretto_verif)]
+                        crate::verif::sched::point("proc:clear_arm");
                         if let Err(e) = CacheCleaner::new(&mut self).clean().await {
                             tracing::error!("fail to handle clear event, error: {}", e);
                             #[cfg(transparencies_stretto_verif)]
@@ -769,6 +791,8 @@ where
                         crate::verif::counters::inc(&crate::verif::counters::CLEARS_DONE);
                     },
                     _ = self.stop_rx.recv().fuse() => {
+                        #[cfg(transparencies_stretto_verif)]
+                        crate::verif::sched::point("proc:stop_arm");
                         _ = self.handle_close_event();
                         return;
                     },
